@@ -41,6 +41,14 @@ Proof. reflexivity. Qed.
 Lemma ct_json_json : is_json_type ct_json = true /\ is_markup_type ct_json = false.
 Proof. split; reflexivity. Qed.
 
+Lemma resp_inert_markup ct body benign :
+  is_markup_type ct = true -> page_inert body benign = true -> resp_inert ct body benign = true.
+Proof. intros M H. unfold resp_inert. destruct body; [reflexivity|]. rewrite M. exact H. Qed.
+
+Lemma resp_inert_json ct body benign :
+  is_markup_type ct = false -> is_json_type ct = true -> json_doc_ok body = true -> resp_inert ct body benign = true.
+Proof. intros M J H. unfold resp_inert. destruct body; [reflexivity|]. rewrite M, J. exact H. Qed.
+
 (* a further (Accept, XHR) combination on which the handler does what the model says: the same
    page under an HTML type, or the JSON body under the JSON type *)
 Lemma var_same_page_ok real benign :
@@ -49,7 +57,7 @@ Lemma var_same_page_ok real benign :
 Proof.
   intros H. split.
   - cbn. rewrite str_eqb_refl. reflexivity.
-  - unfold var_holds, var_body, var_benign, resp_inert. rewrite ct_html_markup. exact H.
+  - unfold var_holds, var_body, var_benign. apply resp_inert_markup; [exact ct_html_markup | exact H].
 Qed.
 
 Lemma var_json_ok svc data real benign :
@@ -57,12 +65,11 @@ Lemma var_json_ok svc data real benign :
   var_mismatch real jm (Var 1 ct_json (Some [SLit jm]) None) = false /\
   var_holds real benign (Var 1 ct_json (Some [SLit jm]) None) = true.
 Proof.
-  cbn zeta. unfold var_mismatch, var_holds, var_body, var_benign, resp_inert.
+  cbn zeta. unfold var_mismatch, var_holds, var_body, var_benign.
   cbn [rebuild N.eqb]. rewrite app_nil_r, str_eqb_refl.
-  destruct ct_json_json as [J M]. rewrite J, M. split; [reflexivity|].
-  unfold model_json. destruct (svc =? 0).
-  - reflexivity.
-  - rewrite json_doc_ok_auth. unfold auth_error_json, error_key. cbn [app]. reflexivity.
+  destruct ct_json_json as [J M]. rewrite J. split; [reflexivity|].
+  apply resp_inert_json; [exact M | exact J|].
+  unfold model_json. destruct (svc =? 0); [apply json_doc_ok_proxy | apply json_doc_ok_auth].
 Qed.
 
 Lemma judge_page_model svc name F d d0 real segs via :
@@ -72,8 +79,8 @@ Lemma judge_page_model svc name F d d0 real segs via :
   judge (CPage svc name d ct_html real segs via []) = 0.
 Proof.
   intros Hs Ho Hr R1 R2. cbn [judge]. rewrite R1.
-  unfold resp_inert. rewrite ct_html_markup.
-  rewrite (page_monitor_accepts_model _ _ _ Hs Ho d d0 real _ Hr R1 R2).
+  rewrite (resp_inert_markup _ _ _ ct_html_markup (page_monitor_accepts_model _ _ _ Hs Ho d d0 real _ Hr R1 R2)).
+  rewrite ct_html_markup.
   cbn [option_eqb existsb forallb]. rewrite str_eqb_refl. reflexivity.
 Qed.
 
@@ -88,10 +95,11 @@ Qed.
 Lemma judge_json_model svc msg :
   judge (CJson svc msg ct_json (if svc =? 0 then proxy_xhr_json msg else auth_error_json msg) []) = 0.
 Proof.
-  cbn [judge]. unfold resp_inert. destruct ct_json_json as [J M]. rewrite J, M.
-  destruct (svc =? 0).
-  - rewrite str_eqb_refl. reflexivity.
-  - rewrite json_doc_ok_auth, str_eqb_refl. unfold auth_error_json, error_key. cbn [app]. reflexivity.
+  destruct ct_json_json as [J M].
+  assert (E : forall body, json_doc_ok body = true ->
+              code (negb (str_eqb body body) || negb (is_json_type ct_json)) (resp_inert ct_json body (rebuild body [])) 0 = 0).
+  { intros body H. rewrite str_eqb_refl, J, (resp_inert_json _ _ _ M J H). reflexivity. }
+  cbn [judge]. destruct (svc =? 0); apply E; [apply json_doc_ok_proxy | apply json_doc_ok_auth].
 Qed.
 
 (* a call site whose page is independent of the hostile inputs: same bytes as the benign run, and
@@ -99,16 +107,17 @@ Qed.
 Lemma judge_same_model svc site real segs :
   rebuild real segs = real -> final_state real = SData -> judge (CSame svc site ct_html real segs []) = 0.
 Proof.
-  intros R F. cbn [judge]. rewrite R, str_eqb_refl. unfold resp_inert, page_inert.
-  rewrite ct_html_markup, evs_eqb_refl, F. reflexivity.
+  intros R F. cbn [judge]. rewrite R, str_eqb_refl.
+  rewrite resp_inert_markup; [reflexivity | exact ct_html_markup|].
+  unfold page_inert. rewrite evs_eqb_refl, F. reflexivity.
 Qed.
 
 (* the response monitor really constrains markup types: a body served as HTML whose structure
    differs from the benign body is rejected, whatever the handler meant it to be *)
 Lemma resp_inert_html_needs_skeleton body benign :
-  resp_inert ct_html body benign = true -> skeleton body = skeleton benign.
+  body <> [] -> resp_inert ct_html body benign = true -> skeleton body = skeleton benign.
 Proof.
-  unfold resp_inert. rewrite ct_html_markup. unfold page_inert. intros H.
+  intros NE H. assert (P : page_inert body benign = true) by (unfold resp_inert in H; destruct body; [congruence|]; rewrite ct_html_markup in H; exact H). clear H. unfold page_inert in P. rename P into H.
   apply andb_true_iff in H as [H _]. unfold evs_eqb in H.
   revert H. generalize (skeleton body) (skeleton benign).
   induction l as [|x l IH]; intros [|y l']; cbn [list_eqb]; try discriminate; [reflexivity|].
@@ -124,13 +133,12 @@ Lemma judge_note_model svc site text url url0 segs :
   judge (CNote svc site text ct_html (redirect_note url text) segs) = 0.
 Proof.
   intros Ht R. cbn [judge]. rewrite note_url_of_note, html_unescape_net_escape, str_eqb_refl, ct_html_markup.
-  unfold resp_inert, page_inert. rewrite ct_html_markup, R.
-  destruct (redirect_note_inert text Ht url url0) as [A B]. rewrite A, B, evs_eqb_refl.
-  unfold redirect_note, note_pre. cbn [app]. reflexivity.
+  rewrite resp_inert_markup; [unfold redirect_note, note_pre; cbn [app]; reflexivity | exact ct_html_markup|].
+  unfold page_inert. rewrite R.
+  destruct (redirect_note_inert text Ht url url0) as [A B]. rewrite A, B, evs_eqb_refl. reflexivity.
 Qed.
 
 Lemma judge_note_empty svc site text ct : judge (CNote svc site text ct [] []) = 0.
 Proof.
-  cbn [judge rebuild]. unfold resp_inert, page_inert.
-  destruct (is_markup_type ct); [reflexivity|]. destruct (is_json_type ct); reflexivity.
+  cbn [judge rebuild]. reflexivity.
 Qed.
